@@ -10,6 +10,7 @@ Oracle.  cpl(f(a), f(b)) == cpl(a, b) for all pairs.  For sets larger than 128 a
 equivalent per-length form is used: for every k, {(top_k(a), top_k(f(a)))} is a one-to-one
 function (if a, b share exactly k bits they agree under top_k and differ under top_(k+1);
 function-ness gives >= k shared image bits, injectivity at k+1 gives exactly k)."""
+import ipaddress
 import json
 
 from mc import choices, refs
@@ -199,7 +200,14 @@ class FullWidth(Part):
             m = ipdom.mod()
             lin = ipdom.make(cfg)
             eff = []
-            for a in W:
+            edge = []
+            for n in cfg["networks"]:
+                n = ipaddress.ip_network(n)
+                lo, hi = int(n.network_address), int(n.broadcast_address)
+                for a in (lo - 2, lo - 1, lo, hi, hi + 1, hi + 2):
+                    # the addresses around both ends of every preserved block, and their close relatives
+                    edge += [a & 0xFFFFFFFF] + [(a ^ (1 << j)) & 0xFFFFFFFF for j in (0, 1, 7, 8, 15, 16, 23)]
+            for a in list(W) + sorted(set(edge) - set(W)):
                 if refs.is_mask32(a):
                     continue
                 t = m.anonymize_ip_addr(lin, "x %s y" % refs.v4_text(a), False).split()[1]
